@@ -19,12 +19,12 @@ pub struct Features {
 
 #[derive(Debug, Clone)]
 pub struct RawCall {
-    kind: u8,
-    oneway: bool,
-    pad: u16,
-    flags_first: bool,
-    fault: Option<u8>,
-    soup: (u16, u16),
+    pub kind: u8,
+    pub oneway: bool,
+    pub pad: u16,
+    pub flags_first: bool,
+    pub fault: Option<u8>,
+    pub soup: (u16, u16),
 }
 
 fn raw_call_strategy(f: Features) -> impl Strategy<Value = RawCall> {
@@ -74,11 +74,11 @@ fn resolve_frames(raw: &[RawCall], f: Features) -> Vec<FrameSpec> {
 
 #[derive(Debug, Clone)]
 pub struct RawConn {
-    calls: Vec<RawCall>,
-    plan: ChunkPlan,
-    end: u8,
-    truncate_last: bool,
-    write_fail: Option<u8>,
+    pub calls: Vec<RawCall>,
+    pub plan: ChunkPlan,
+    pub end: u8,
+    pub truncate_last: bool,
+    pub write_fail: Option<u8>,
 }
 
 fn raw_conn_strategy(f: Features) -> impl Strategy<Value = RawConn> {
@@ -154,9 +154,16 @@ pub fn scenario_strategy(f: Features) -> impl Strategy<Value = Scenario> {
         // closing stream events so that most streams end eventually
         prop::collection::vec((any::<u8>(), any::<u8>()), 0..8),
     )
-        .prop_map(move |(raw_conns, raw_steps, closing)| {
+        .prop_map(move |(raw_conns, raw_steps, closing)| assemble(f, &raw_conns, &raw_steps, &closing))
+}
+
+/// Build a scenario from raw generated values (shared by the proptest strategy above and by the
+/// byte decoder of the `srv_sim` fuzz target).
+pub fn assemble(f: Features, raw_conns: &[RawConn], raw_steps: &[(u8, u8, u8)], closing: &[(u8, u8)]) -> Scenario {
+    {
+        {
             let conns: Vec<ConnScript> = raw_conns.iter().enumerate().map(|(c, r)| resolve_conn(c, r, f)).collect();
-            let mut steps = resolve_steps(&raw_steps, &conns, f);
+            let mut steps = resolve_steps(raw_steps, &conns, f);
             if f.subs {
                 // After the random part: deliver everything, then push/end every stream in some order
                 for c in 0..conns.len() {
@@ -198,7 +205,8 @@ pub fn scenario_strategy(f: Features) -> impl Strategy<Value = Scenario> {
                 }
             }
             Scenario { conns, steps }
-        })
+        }
+    }
 }
 
 /// All interleavings of the given per-connection event counts: sequences over connection indexes in
